@@ -482,13 +482,69 @@ def synth_call_fingerprints(module, seed) -> dict:
     return {"calls": calls, "source": "synthesised"}
 
 
-def fingerprint(mname: str, test_path, seed) -> dict:
+def zero_probe(module, seed, max_pairs=4) -> list:
+    """calculate_* calls with ONE ZERO-VALUED argument, made twice: with the arguments created one after the other,
+    and with other code creating quantities between two of the arguments so that a digit-count boundary of the QTY
+    counter (99/100, 999/1000, ...) falls between them - which reverses the order of the arguments' generated
+    names.  Value AND dimension of the result must not depend on it.  Entries: ["zero" | "zeroB", 0, fn:param, fp]."""
+    import sympy as sp
+    from . import catalogue
+    from symplyphysics import Quantity
+    from symplyphysics.core.symbols import id_generator
+    calls, pairs = [], 0
+    for g in catalogue.guarded_functions(module):
+        if g.name.startswith("_") or len(g.params) < 2:
+            continue
+        scalars = [p for p in g.params if p in g.inputs and catalogue.shape_of(g, p) == "scalar" and
+                   isinstance(catalogue.declared_dimension(g.inputs[p]), sp.physics.units.Dimension)]
+        for zp in scalars[:2]:
+            if pairs >= max_pairs:
+                return calls
+            pairs += 1
+            k = g.params.index(zp)
+            split = k + 1 if k + 1 < len(g.params) else k       # the boundary falls between params split-1 and split
+            for variant in ("zero", "zeroB"):
+                try:
+                    with time_limit(20):
+                        args = {}
+                        for idx, p in enumerate(g.params):
+                            if variant == "zeroB" and idx == split:
+                                cur = id_generator.last_id("QTY")
+                                bound = 100
+                                while bound <= cur + 1:
+                                    bound *= 10
+                                do_nextid("QTY", bound - 1 - cur)      # other code created quantities in between
+                            if p == zp:
+                                args[p] = catalogue.quantity_of(0, catalogue.declared_dimension(g.inputs[p]))
+                            elif p in g.inputs:
+                                args[p] = catalogue.synth_argument(seed, g, p, exact=False)
+                            else:
+                                args[p] = catalogue.synth_unguarded(seed, g, p, exact=False)
+                        if any(a is catalogue.UNKNOWN for a in args.values()):
+                            break
+                        try:
+                            r = g.wrapper(**args)
+                        except HardTimeout:
+                            raise
+                        except BaseException as e:  # pylint: disable=broad-except
+                            r = e
+                        calls.append([variant, 0, f"{g.name}:{zp}", value_fp(r)])
+                except HardTimeout:
+                    break
+                except BaseException:  # pylint: disable=broad-except
+                    break
+    return calls
+
+
+def fingerprint(mname: str, test_path, seed, zero=False) -> dict:
     mod = sys.modules.get(mname)
     if mod is None:
         return {"missing": True}
     t0 = time.time()
     out = {"eqs": equation_fingerprints(mod)}
     out.update(call_fingerprints(mod, test_path, seed))
+    if zero:
+        out["calls"] = list(out.get("calls", [])) + zero_probe(mod, seed)
     out["s"] = round(time.time() - t0, 2)
     return out
 
@@ -583,9 +639,13 @@ def run(spec: dict) -> dict:
     seed = spec.get("seed", 0)
     workers = int(spec.get("fp_workers", 1))
     fps: dict = {}
+    zero = bool(spec.get("zero_probe"))
+    if zero:
+        from symplyphysics.core import verif_hooks
+        verif_hooks.sink = None          # the history is over: the probes' own (bulk) id allocations are not recorded
     if workers <= 1 or len(observe) < 2 * workers:
         for m in observe:
-            fps[m] = fingerprint(m, tests.get(m), seed)
+            fps[m] = fingerprint(m, tests.get(m), seed, zero)
     else:
         base = spec["_out"]
         pids = []
